@@ -332,7 +332,8 @@ func (s *Sched) Run() {
 			for {
 				progressed, waiters, free := false, 0, false
 				for _, w := range s.workers {
-					if w.state != 3 || w.curOp == nil || !w.curOp.Eager || w.curOp.Guard == nil {
+					op := w.curOp // snapshot: a waiter that wakes right now finishes its call concurrently and clears the field
+					if w.state != 3 || op == nil || !op.Eager || op.Guard == nil {
 						continue
 					}
 					if !blockedInLibrary(w) {
@@ -343,7 +344,7 @@ func (s *Sched) Run() {
 						continue
 					}
 					waiters++
-					if w.curOp.Guard() {
+					if op.Guard() {
 						free = true
 					}
 				}
@@ -358,7 +359,7 @@ func (s *Sched) Run() {
 		}
 		// wake-ups of previously blocked workers
 		for _, w := range s.workers {
-			if w.state == 3 && w.curOp != nil && w.curOp.Eager && w.curOp.Guard != nil {
+			if op := w.curOp; w.state == 3 && op != nil && op.Eager && op.Guard != nil {
 				continue // handled below, at the points where the object's mutex can have been released
 			}
 			if w.state == 3 && !blockedInLibrary(w) {
